@@ -658,3 +658,8 @@ M('c08-store-guard-clause-inverted', 'C08', 'R3', _REQ, _STORE_OLD,
   "            if store is not None:\n                return param\n\n            store[name] = param\n            return param\n")
 M('c08-store-guard-clause-early-return', 'C08', 'R3', _REQ, _STORE_OLD,
   "            if isinstance(param, str):\n                return param\n\n            if store is None:\n                return param\n\n            store[name] = param\n            return param\n")
+# R4: `query_str = query_str + <pair>` for `query_str += <pair>` (refactor_fuzz variant augassign); the key field without the encoder
+M('c08-qs-selfadd-raw-key', 'C08', 'R4', _MISC, "        query_str += encode_value(k) + '=' + v + '&'\n",
+  "        query_str = query_str + (k + '=' + v + '&')\n")
+M('c08-qs-selfadd-semicolon', 'C08', 'R4', _MISC, "        query_str += encode_value(k) + '=' + v + '&'\n",
+  "        query_str = query_str + (encode_value(k) + '=' + v + ';')\n")
